@@ -304,6 +304,8 @@ class DRFNet(BayesianNetwork):
         # One generator per call: re-seeding inside the loops would give
         # every source node the same bootstrap indices
         rng = np.random.default_rng(random_state)
+        # The forests draw from numpy's global generator (see drf.predict)
+        np.random.seed(random_state) if random_state is not None else None
         # Generate a sample for each environment
         sampled_data = []
         for k in range(self.e):
